@@ -139,6 +139,12 @@ theorem onPoll_cases (s : DState) :
   cases hm : s.main with
   | running => cases he : exitNow c s <;> simp
   | returned r => simp
+  | cancelled r => simp
+
+theorem onCancel_cases (s : DState) :
+    (s.main = .running ∧ onCancel s = cleanup s (.cancelled s.t)) ∨ (s.main ≠ .running ∧ onCancel s = s) := by
+  unfold onCancel
+  cases hm : s.main <;> simp
 
 
 /-! ### the invariant -/
@@ -159,6 +165,7 @@ structure DInv (s : DState) : Prop where
   foundOf : s.main = .running → s.consumer ≠ .inHandler → f.restricting = true → s.spas ≠ [] → s.found = true
   ret : ∀ r, s.main = .returned r → r ≤ s.t ∧ (s.consumer = .cancelled ∨ ∃ e, s.consumer = .dead e) ∧ s.bcastAlive = false ∧
           (c.timeout ≤ r ∨ (c.initial < r ∧ s.spas ≠ []) ∨ s.found = true)
+  fin : s.main ≠ .running → (s.consumer = .cancelled ∨ ∃ e, s.consumer = .dead e) ∧ s.bcastAlive = false
 
 theorem inv_init : DInv c f DState.init := by
   constructor <;> simp [DState.init, firstPerId]
@@ -180,10 +187,9 @@ theorem inv_tick (s : DState) (hi : DInv c f s) : DInv c f { s with t := s.t + 1
   exact { hi with ret := hret }
 
 theorem running_of_idle (s : DState) (hi : DInv c f s) (h : s.consumer = .idle) : s.main = .running := by
-  cases hm : s.main with
-  | running => rfl
-  | returned r =>
-    obtain ⟨_, h2, _⟩ := hi.ret r hm
+  by_cases hm : s.main = .running
+  · exact hm
+  · obtain ⟨h2, _⟩ := hi.fin hm
     rcases h2 with h2 | ⟨e, h2⟩ <;> simp [h] at h2
 
 theorem inv_discovered (s : DState) (h0 : List Desc) (d : Desc) (b : Bool) (hidle : s.consumer = .idle)
@@ -226,7 +232,8 @@ theorem inv_discovered (s : DState) (h0 : List Desc) (d : Desc) (b : Bool) (hidl
       foundImp := fun hf => ⟨(hi.foundImp hf).1, by simp⟩
       handlerImp := fun _ => ⟨by simp, hrun⟩
       foundOf := fun _ hne => absurd rfl hne
-      ret := fun r hr => by rw [hrun] at hr; cases hr }
+      ret := fun r hr => by rw [hrun] at hr; cases hr
+      fin := fun h => absurd hrun h }
   · rw [h3]
     exact {
       ids := by simp [hids]
@@ -253,7 +260,8 @@ theorem inv_discovered (s : DState) (h0 : List Desc) (d : Desc) (b : Bool) (hidl
         · exact hf
       handlerImp := fun hc => by rw [hidle] at hc; cases hc
       foundOf := fun _ _ hr _ => by simp [hr]
-      ret := fun r hr => by rw [hrun] at hr; cases hr }
+      ret := fun r hr => by rw [hrun] at hr; cases hr
+      fin := fun h => absurd hrun h }
 
 
 theorem inv_consume (s : DState) (hi : DInv c f s) (b : Bool) : DInv c f (onConsume f s b) := by
@@ -265,7 +273,8 @@ theorem inv_consume (s : DState) (hi : DInv c f s) (b : Bool) : DInv c f (onCons
       fifo := by simp [hi.fifo, hq]
       handlerImp := fun hx => by cases hx
       foundOf := fun h1 _ h3 h4 => hi.foundOf h1 (by simp [hc]) h3 h4
-      ret := fun r hr => by rw [show s.main = Main.running from hrun] at hr; cases hr }
+      ret := fun r hr => by rw [show s.main = Main.running from hrun] at hr; cases hr
+      fin := fun h => absurd hrun h }
   · rw [h]
     refine inv_discovered c f { s with queue := rest, popped := s.popped ++ [d], handled := s.handled ++ [⟨i, n, d.addr⟩] }
       s.handled ⟨i, n, d.addr⟩ b hc rfl ?_
@@ -284,7 +293,8 @@ theorem inv_resume (s : DState) (hi : DInv c f s) : DInv c f (onResume f s) := b
         · exact hf
       handlerImp := fun hx => by cases hx
       foundOf := fun _ _ hr _ => by simp [hr]
-      ret := fun r hr => by rw [show s.main = Main.running from hrun] at hr; cases hr }
+      ret := fun r hr => by rw [show s.main = Main.running from hrun] at hr; cases hr
+      fin := fun h => absurd hrun h }
   · rw [h]; exact hi
 
 theorem exitNow_spec (s : DState) (h : exitNow c s = true) :
@@ -297,20 +307,40 @@ theorem exitNow_spec (s : DState) (h : exitNow c s = true) :
   · exact Or.inr (Or.inl h)
   · exact Or.inr (Or.inr h)
 
+theorem cleanup_consumer (s : DState) (m : Main) :
+    (cleanup s m).consumer = .cancelled ∨ ∃ e, (cleanup s m).consumer = .dead e := by
+  unfold cleanup
+  cases s.consumer <;> simp
+
 theorem inv_poll (s : DState) (hi : DInv c f s) : DInv c f (onPoll c s) := by
   rcases onPoll_cases c s with ⟨_, he, h⟩ | ⟨_, h⟩
   · rw [h]
-    have hcons : (finish s).consumer = .cancelled ∨ ∃ e, (finish s).consumer = .dead e := by
-      unfold finish
-      cases s.consumer <;> simp
+    have hcons := cleanup_consumer s (.returned s.t)
+    have hret : ∀ r, (finish s).main = .returned r → r ≤ (finish s).t ∧
+        ((finish s).consumer = .cancelled ∨ ∃ e, (finish s).consumer = .dead e) ∧ (finish s).bcastAlive = false ∧
+        (c.timeout ≤ r ∨ (c.initial < r ∧ (finish s).spas ≠ []) ∨ (finish s).found = true) := by
+      intro r hr
+      have : r = s.t := by simp [finish, cleanup] at hr; exact hr.symm
+      subst this
+      exact ⟨Nat.le_refl _, hcons, rfl, exitNow_spec c s he⟩
     exact { hi with
-      closedIff := by simp [finish]
-      handlerImp := fun hx => by rcases hcons with h1 | ⟨e, h1⟩ <;> rw [h1] at hx <;> cases hx
-      foundOf := fun hx => by simp [finish] at hx
-      ret := fun r hr => by
-        have : r = s.t := by simp [finish] at hr; exact hr.symm
-        subst this
-        exact ⟨Nat.le_refl _, hcons, rfl, exitNow_spec c s he⟩ }
+      closedIff := by simp [finish, cleanup]
+      handlerImp := fun hx => by rcases hcons with h1 | ⟨e, h1⟩ <;> (unfold finish at hx; rw [h1] at hx; cases hx)
+      foundOf := fun hx => by simp [finish, cleanup] at hx
+      ret := hret
+      fin := fun _ => ⟨hcons, rfl⟩ }
+  · rw [h]; exact hi
+
+theorem inv_cancel (s : DState) (hi : DInv c f s) : DInv c f (onCancel s) := by
+  rcases onCancel_cases s with ⟨_, h⟩ | ⟨_, h⟩
+  · rw [h]
+    have hcons := cleanup_consumer s (.cancelled s.t)
+    exact { hi with
+      closedIff := by simp [cleanup]
+      handlerImp := fun hx => by rcases hcons with h1 | ⟨e, h1⟩ <;> (rw [h1] at hx; cases hx)
+      foundOf := fun hx => by simp [cleanup] at hx
+      ret := fun r hr => by simp [cleanup] at hr
+      fin := fun _ => ⟨hcons, rfl⟩ }
   · rw [h]; exact hi
 
 theorem inv_step (s : DState) (hi : DInv c f s) (i : Input) : DInv c f (step c f s i) := by
@@ -320,6 +350,7 @@ theorem inv_step (s : DState) (hi : DInv c f s) (i : Input) : DInv c f (step c f
   | consume b => exact inv_consume c f s hi b
   | resume => exact inv_resume c f s hi
   | poll => exact inv_poll c f s hi
+  | cancel => exact inv_cancel c f s hi
 
 theorem inv_run (is : List Input) : ∀ s, DInv c f s → DInv c f (run c f s is) := by
   induction is with
@@ -407,11 +438,15 @@ theorem step_t (s : DState) (i : Input) : (step c f s i).t = s.t + (if i = .tick
     rcases onResume_cases f s with ⟨_, h⟩ | ⟨_, h⟩ <;> rw [h] <;> simp
   | poll =>
     simp only [step]
-    rcases onPoll_cases c s with ⟨_, _, h⟩ | ⟨_, h⟩ <;> rw [h] <;> simp [finish]
+    rcases onPoll_cases c s with ⟨_, _, h⟩ | ⟨_, h⟩ <;> rw [h] <;> simp [finish, cleanup]
+  | cancel =>
+    simp only [step]
+    rcases onCancel_cases s with ⟨_, h⟩ | ⟨_, h⟩ <;> rw [h] <;> simp [cleanup]
 
 theorem step_main (s : DState) (i : Input) :
     (step c f s i).main = s.main ∨
-    (i = .poll ∧ s.main = .running ∧ exitNow c s = true ∧ (step c f s i).main = .returned s.t) := by
+    (i = .poll ∧ s.main = .running ∧ exitNow c s = true ∧ (step c f s i).main = .returned s.t) ∨
+    (i = .cancel ∧ s.main = .running ∧ (step c f s i).main = .cancelled s.t) := by
   cases i with
   | datagram d => left; simp only [step, onDatagram]; split <;> simp
   | tick => left; simp [step]
@@ -431,13 +466,23 @@ theorem step_main (s : DState) (i : Input) :
   | poll =>
     simp only [step]
     rcases onPoll_cases c s with ⟨h1, h2, h⟩ | ⟨_, h⟩
-    · right; rw [h]; exact ⟨trivial, h1, h2, rfl⟩
+    · right; left; rw [h]; exact ⟨trivial, h1, h2, rfl⟩
+    · left; rw [h]
+  | cancel =>
+    simp only [step]
+    rcases onCancel_cases s with ⟨h1, h⟩ | ⟨_, h⟩
+    · right; right; rw [h]; exact ⟨trivial, h1, rfl⟩
     · left; rw [h]
 
+/-- once `discover` has returned or was cancelled, its status never changes -/
+theorem step_final (s : DState) (i : Input) (h : s.main ≠ .running) : (step c f s i).main = s.main := by
+  rcases step_main c f s i with h1 | ⟨_, h2, _⟩ | ⟨_, h2, _⟩
+  · exact h1
+  · exact absurd h2 h
+  · exact absurd h2 h
+
 theorem step_returned (s : DState) (i : Input) (r : Nat) (h : s.main = .returned r) : (step c f s i).main = .returned r := by
-  rcases step_main c f s i with h1 | ⟨_, h2, _⟩
-  · rw [h1, h]
-  · rw [h] at h2; cases h2
+  rw [step_final c f s i (by rw [h]; simp), h]
 
 theorem poll_exits (s : DState) (h : s.main = .running) (he : exitNow c s = true) :
     (step c f s .poll).main = .returned s.t := by
@@ -466,7 +511,10 @@ theorem step_spas_found (s : DState) (i : Input) :
     rcases onResume_cases f s with ⟨_, h⟩ | ⟨_, h⟩ <;> rw [h] <;> simp <;> intro hf <;> simp [hf]
   | poll =>
     simp only [step]
-    rcases onPoll_cases c s with ⟨_, _, h⟩ | ⟨_, h⟩ <;> rw [h] <;> simp [finish]
+    rcases onPoll_cases c s with ⟨_, _, h⟩ | ⟨_, h⟩ <;> rw [h] <;> simp [finish, cleanup]
+  | cancel =>
+    simp only [step]
+    rcases onCancel_cases s with ⟨_, h⟩ | ⟨_, h⟩ <;> rw [h] <;> simp [cleanup]
 
 theorem run_append (is js : List Input) : ∀ s, run c f s (is ++ js) = run c f (run c f s is) js := by
   induction is with
@@ -479,9 +527,18 @@ theorem run_returned (is : List Input) : ∀ s r, s.main = .returned r → (run 
   | cons i is ih => intro s r h; exact ih _ r (step_returned c f s i r h)
 
 
+theorem run_final (is : List Input) : ∀ s : DState, s.main ≠ .running → (run c f s is).main = s.main := by
+  induction is with
+  | nil => intro s _; rfl
+  | cons i is ih =>
+    intro s h
+    have h1 := step_final c f s i h
+    simp only [run]
+    rw [ih _ (by rw [h1]; exact h), h1]
+
 /-! ### the lockstep schedule -/
 
-theorem run_noTick (is : List Input) (hnt : Input.tick ∉ is) : ∀ s : DState,
+theorem run_noTick (is : List Input) (hnt : Input.tick ∉ is) (hnc : Input.cancel ∉ is) : ∀ s : DState,
     (run c f s is).t = s.t ∧
     (s.main = .running → (run c f s is).main = .running ∨ (run c f s is).main = .returned s.t) := by
   induction is with
@@ -489,15 +546,18 @@ theorem run_noTick (is : List Input) (hnt : Input.tick ∉ is) : ∀ s : DState,
   | cons i is ih =>
     intro s
     have hi : i ≠ .tick := fun e => hnt (by simp [e])
+    have hic : i ≠ .cancel := fun e => hnc (by simp [e])
     have his : Input.tick ∉ is := fun e => hnt (by simp [e])
-    obtain ⟨h1, h2⟩ := ih his (step c f s i)
+    have hisc : Input.cancel ∉ is := fun e => hnc (by simp [e])
+    obtain ⟨h1, h2⟩ := ih his hisc (step c f s i)
     have ht : (step c f s i).t = s.t := by rw [step_t]; simp [hi]
     refine ⟨by simp only [run]; rw [h1, ht], ?_⟩
     intro hrun
     simp only [run]
-    rcases step_main c f s i with hm | ⟨_, _, _, hm⟩
+    rcases step_main c f s i with hm | ⟨_, _, _, hm⟩ | ⟨he, _⟩
     · rw [ht] at h2; exact h2 (by rw [hm]; exact hrun)
     · exact Or.inr (run_returned c f is _ _ hm)
+    · exact absurd he hic
 
 theorem run_pres (C : DState → Prop) (hC : ∀ s i, C s → C (step c f s i)) (is : List Input) :
     ∀ s, C s → C (run c f s is) := by
@@ -507,10 +567,11 @@ theorem run_pres (C : DState → Prop) (hC : ∀ s i, C s → C (step c f s i)) 
 
 theorem run_poll_exits (C : DState → Prop) (K : Nat) (hC : ∀ s i, C s → C (step c f s i))
     (hpoll : ∀ s, C s → K ≤ s.t → s.main = .running → exitNow c s = true)
-    (A B : List Input) (hA : Input.tick ∉ A) (s : DState) (hs : C s) (hK : K ≤ s.t) (hrun : s.main = .running) :
+    (A B : List Input) (hA : Input.tick ∉ A) (hAc : Input.cancel ∉ A) (s : DState) (hs : C s) (hK : K ≤ s.t)
+    (hrun : s.main = .running) :
     (run c f s (A ++ Input.poll :: B)).main = .returned s.t := by
   rw [run_append]
-  obtain ⟨h1, h2⟩ := run_noTick c f A hA s
+  obtain ⟨h1, h2⟩ := run_noTick c f A hA hAc s
   have hC1 := run_pres c f C hC A s hs
   simp only [run]
   rcases h2 hrun with h | h
@@ -520,6 +581,9 @@ theorem run_poll_exits (C : DState → Prop) (K : Nat) (hC : ∀ s i, C s → C 
   · exact run_returned c f B _ _ (step_returned c f _ _ _ h)
 
 theorem datagrams_noTick (l : List Datagram) : Input.tick ∉ l.map Input.datagram := by
+  simp
+
+theorem datagrams_noCancel (l : List Datagram) : Input.cancel ∉ l.map Input.datagram := by
   simp
 
 /-- one slot from a running state: the clock moves one unit; the loop either keeps running or returned at the slot's time;
@@ -535,14 +599,18 @@ theorem slot_spec (C : DState → Prop) (K : Nat) (hC : ∀ s i, C s → C (step
   have hnt : Input.tick ∉ (sl.arrivals.map Input.datagram ++
       (if sl.mainFirst then [Input.poll, Input.consume false] else [Input.consume false, Input.poll])) := by
     cases sl.mainFirst <;> simp
-  obtain ⟨h1, h2⟩ := run_noTick c f _ hnt s
+  have hnc : Input.cancel ∉ (sl.arrivals.map Input.datagram ++
+      (if sl.mainFirst then [Input.poll, Input.consume false] else [Input.consume false, Input.poll])) := by
+    cases sl.mainFirst <;> simp
+  obtain ⟨h1, h2⟩ := run_noTick c f _ hnt hnc s
   rw [hsplit, run_append]
   simp only [run]
   refine ⟨by rw [step_t]; simp [h1], ?_, ?_⟩
   · rcases h2 hrun with h | h
     · left
-      rcases step_main c f (run c f s _) .tick with hm | ⟨he, _⟩
+      rcases step_main c f (run c f s _) .tick with hm | ⟨he, _⟩ | ⟨he, _⟩
       · rw [hm]; exact h
+      · cases he
       · cases he
     · right; exact step_returned c f _ _ _ h
   · intro hs hK
@@ -550,13 +618,13 @@ theorem slot_spec (C : DState → Prop) (K : Nat) (hC : ∀ s i, C s → C (step
     cases hmf : sl.mainFirst with
     | true =>
       simp only [if_true]
-      exact run_poll_exits c f C K hC hpoll _ [Input.consume false] (datagrams_noTick _) s hs hK hrun
+      exact run_poll_exits c f C K hC hpoll _ [Input.consume false] (datagrams_noTick _) (datagrams_noCancel _) s hs hK hrun
     | false =>
       simp only [Bool.false_eq_true, if_false]
       have : sl.arrivals.map Input.datagram ++ [Input.consume false, Input.poll] =
           (sl.arrivals.map Input.datagram ++ [Input.consume false]) ++ Input.poll :: [] := by simp
       rw [this]
-      exact run_poll_exits c f C K hC hpoll _ [] (by simp) s hs hK hrun
+      exact run_poll_exits c f C K hC hpoll _ [] (by simp) (by simp) s hs hK hrun
 
 theorem lockstep_cons (sl : Slot) (slots : List Slot) : lockstep (sl :: slots) = slotInputs sl ++ lockstep slots := by
   simp [lockstep]
@@ -570,9 +638,12 @@ theorem slot_t (sl : Slot) (s : DState) : (run c f s (slotInputs sl)).t = s.t + 
   have hnt : Input.tick ∉ (sl.arrivals.map Input.datagram ++
       (if sl.mainFirst then [Input.poll, Input.consume false] else [Input.consume false, Input.poll])) := by
     cases sl.mainFirst <;> simp
+  have hnc : Input.cancel ∉ (sl.arrivals.map Input.datagram ++
+      (if sl.mainFirst then [Input.poll, Input.consume false] else [Input.consume false, Input.poll])) := by
+    cases sl.mainFirst <;> simp
   rw [hsplit, run_append]
   simp only [run]
-  rw [step_t, (run_noTick c f _ hnt s).1]; simp
+  rw [step_t, (run_noTick c f _ hnt hnc s).1]; simp
 
 theorem lockstep_t (slots : List Slot) : ∀ s : DState, (run c f s (lockstep slots)).t = s.t + slots.length := by
   induction slots with
@@ -586,18 +657,21 @@ theorem lockstep_t (slots : List Slot) : ∀ s : DState, (run c f s (lockstep sl
 theorem returns_by (C : DState → Prop) (K : Nat) (hC : ∀ s i, C s → C (step c f s i))
     (hpoll : ∀ s, C s → K ≤ s.t → s.main = .running → exitNow c s = true) :
     ∀ (slots : List Slot) (s : DState), C s → (s.main = .running → s.t ≤ K) → (∀ r, s.main = .returned r → r ≤ K) →
+      (∀ a, s.main ≠ .cancelled a) →
       K < s.t + slots.length → ∃ r, (run c f s (lockstep slots)).main = .returned r ∧ r ≤ K := by
   intro slots
   induction slots with
   | nil =>
-    intro s _ h1 h2 h3
+    intro s _ h1 h2 hnc h3
     cases hm : s.main with
     | running => have := h1 hm; simp at h3; omega
     | returned r => exact ⟨r, by simpa [lockstep, run] using hm, h2 r hm⟩
+    | cancelled a => exact absurd hm (hnc a)
   | cons sl slots ih =>
-    intro s hs h1 h2 h3
+    intro s hs h1 h2 hnc h3
     rw [lockstep_cons, run_append]
     cases hm : s.main with
+    | cancelled a => exact absurd hm (hnc a)
     | returned r =>
       exact ⟨r, run_returned c f _ _ _ (run_returned c f _ _ _ hm), h2 r hm⟩
     | running =>
@@ -613,6 +687,8 @@ theorem returns_by (C : DState → Prop) (K : Nat) (hC : ∀ s i, C s → C (ste
           rcases hmain with h | h
           · rw [h] at hr; cases hr
           · rw [h] at hr; cases hr; exact hle
+        · intro a
+          rcases hmain with h | h <;> rw [h] <;> simp
         · rw [ht]; simp only [List.length_cons] at h3; omega
 
 /-- with a handler that never suspends the consumer is never inside the handler -/
@@ -645,7 +721,12 @@ theorem step_noSuspend (s : DState) (i : Input) (hi : i ≠ .consume true) (h : 
   | poll =>
     simp only [step]
     rcases onPoll_cases c s with ⟨_, _, h1⟩ | ⟨_, h1⟩ <;> rw [h1]
-    · unfold finish; cases s.consumer <;> simp
+    · unfold finish cleanup; cases s.consumer <;> simp
+    · exact h
+  | cancel =>
+    simp only [step]
+    rcases onCancel_cases s with ⟨_, h1⟩ | ⟨_, h1⟩ <;> rw [h1]
+    · unfold cleanup; cases s.consumer <;> simp
     · exact h
 
 theorem run_noSuspend (is : List Input) (hns : noSuspend is) : ∀ s : DState, s.consumer ≠ .inHandler →
@@ -724,7 +805,19 @@ theorem ginv_step (s : DState) (hi : DInv c f s) (hg : GInv s) (i : Input)
     rcases onPoll_cases c s with ⟨_, _, h⟩ | ⟨_, h⟩ <;> rw [h]
     · refine { good := hg.good, decoded := hg.decoded, alive := ?_ }
       intro e
-      unfold finish
+      unfold finish cleanup
+      cases hcs : s.consumer with
+      | dead e' => exact absurd hcs (hg.alive e')
+      | idle => simp
+      | inHandler => simp
+      | cancelled => simp
+    · exact hg
+  | cancel =>
+    simp only [step]
+    rcases onCancel_cases s with ⟨_, h⟩ | ⟨_, h⟩ <;> rw [h]
+    · refine { good := hg.good, decoded := hg.decoded, alive := ?_ }
+      intro e
+      unfold cleanup
       cases hcs : s.consumer with
       | dead e' => exact absurd hcs (hg.alive e')
       | idle => simp
@@ -759,11 +852,12 @@ theorem arrived_run (is : List Input) : ∀ s : DState, DInv c f s → (run c f 
     intro s hi hrun
     simp only [run] at hrun ⊢
     have hs : s.main = .running := by
-      cases hm : s.main with
-      | running => rfl
-      | returned r =>
-        have := run_returned c f is _ r (step_returned c f s i r hm)
-        rw [this] at hrun; cases hrun
+      by_cases hm : s.main = .running
+      · exact hm
+      · have h1 := step_final c f s i hm
+        have := run_final c f is _ (by rw [h1]; exact hm)
+        rw [this, h1] at hrun
+        exact absurd hrun hm
     have hopen : s.closed = false := by
       cases hcl : s.closed with
       | false => rfl
@@ -785,13 +879,16 @@ theorem arrived_run (is : List Input) : ∀ s : DState, DInv c f s → (run c f 
       rcases onResume_cases f s with ⟨_, h⟩ | ⟨_, h⟩ <;> rw [h]
     | poll =>
       simp only [step, datagramsOf]
-      rcases onPoll_cases c s with ⟨_, _, h⟩ | ⟨_, h⟩ <;> rw [h] <;> simp [finish]
+      rcases onPoll_cases c s with ⟨_, _, h⟩ | ⟨_, h⟩ <;> rw [h] <;> simp [finish, cleanup]
+    | cancel =>
+      simp only [step, datagramsOf]
+      rcases onCancel_cases s with ⟨_, h⟩ | ⟨_, h⟩ <;> rw [h] <;> simp [cleanup]
 
-theorem frozen_step (s : DState) (hi : DInv c f s) (r : Nat) (hr : s.main = .returned r) (i : Input) :
+theorem frozen_step (s : DState) (hi : DInv c f s) (hr : s.main ≠ .running) (i : Input) :
     (step c f s i).spas = s.spas ∧ (step c f s i).seen = s.seen ∧ (step c f s i).found = s.found ∧
     (step c f s i).closed = true ∧ (step c f s i).queue = s.queue ∧ (step c f s i).consumer = s.consumer := by
-  obtain ⟨_, hcons, _, _⟩ := hi.ret r hr
-  have hcl : s.closed = true := hi.closedIff.mpr (by rw [hr]; simp)
+  obtain ⟨hcons, _⟩ := hi.fin hr
+  have hcl : s.closed = true := hi.closedIff.mpr hr
   have hnotidle : s.consumer ≠ .idle := by rcases hcons with h | ⟨e, h⟩ <;> rw [h] <;> simp
   have hnoth : s.consumer ≠ .inHandler := by rcases hcons with h | ⟨e, h⟩ <;> rw [h] <;> simp
   cases i with
@@ -811,21 +908,50 @@ theorem frozen_step (s : DState) (hi : DInv c f s) (r : Nat) (hr : s.main = .ret
   | poll =>
     simp only [step]
     rcases onPoll_cases c s with ⟨h1, _⟩ | ⟨_, h⟩
-    · rw [hr] at h1; cases h1
+    · exact absurd h1 hr
+    · rw [h]; simp [hcl]
+  | cancel =>
+    simp only [step]
+    rcases onCancel_cases s with ⟨h1, _⟩ | ⟨_, h⟩
+    · exact absurd h1 hr
     · rw [h]; simp [hcl]
 
-theorem frozen_run (is : List Input) : ∀ (s : DState), DInv c f s → ∀ r, s.main = .returned r →
-    (run c f s is).spas = s.spas ∧ (run c f s is).main = .returned r ∧ (run c f s is).closed = true ∧
+theorem frozen_run (is : List Input) : ∀ (s : DState), DInv c f s → s.main ≠ .running →
+    (run c f s is).spas = s.spas ∧ (run c f s is).main = s.main ∧ (run c f s is).closed = true ∧
     (run c f s is).queue = s.queue ∧ (run c f s is).consumer = s.consumer := by
   induction is with
   | nil =>
-    intro s hi r hr
-    exact ⟨rfl, hr, hi.closedIff.mpr (by rw [hr]; simp), rfl, rfl⟩
+    intro s hi hr
+    exact ⟨rfl, rfl, hi.closedIff.mpr hr, rfl, rfl⟩
   | cons i is ih =>
-    intro s hi r hr
-    obtain ⟨h1, _, _, _, h5, h6⟩ := frozen_step c f s hi r hr i
-    obtain ⟨g1, g2, g3, g4, g5⟩ := ih _ (inv_step c f s hi i) r (step_returned c f s i r hr)
+    intro s hi hr
+    obtain ⟨h1, _, _, _, h5, h6⟩ := frozen_step c f s hi hr i
+    have hm := step_final c f s i hr
+    obtain ⟨g1, g2, g3, g4, g5⟩ := ih _ (inv_step c f s hi i) (by rw [hm]; exact hr)
     simp only [run]
-    exact ⟨by rw [g1, h1], g2, g3, by rw [g4, h5], by rw [g5, h6]⟩
+    exact ⟨by rw [g1, h1], by rw [g2, hm], g3, by rw [g4, h5], by rw [g5, h6]⟩
+
+/-! ### schedules without a cancellation never end up cancelled -/
+
+theorem run_noCancel (is : List Input) (hnc : Input.cancel ∉ is) : ∀ s : DState, (∀ a, s.main ≠ .cancelled a) →
+    ∀ a, (run c f s is).main ≠ .cancelled a := by
+  induction is with
+  | nil => intro s h; exact h
+  | cons i is ih =>
+    intro s h
+    have hi : i ≠ .cancel := fun e => hnc (by simp [e])
+    apply ih (fun e => hnc (by simp [e]))
+    intro a
+    rcases step_main c f s i with h1 | ⟨_, _, _, h1⟩ | ⟨he, _⟩
+    · rw [h1]; exact h a
+    · rw [h1]; simp
+    · exact absurd he hi
+
+theorem lockstep_noCancel (slots : List Slot) : Input.cancel ∉ lockstep slots := by
+  intro hi
+  simp only [lockstep, List.mem_flatMap] at hi
+  obtain ⟨sl, _, hi⟩ := hi
+  unfold slotInputs at hi
+  cases hmf : sl.mainFirst <;> simp [hmf] at hi
 
 end GeckoModel.Discovery
